@@ -80,6 +80,9 @@ func expandC12(_ *testing.T, seed uint64, tier string) []*core.Plan {
 	if r.Chance(1, 6) {
 		p.SetKnob("fullq", 1) // the online observer's session queue is full when the will is published
 	}
+	if r.Chance(1, 5) {
+		p.SetKnob("pred", 1) // the subject itself displaces an earlier connection with its client id
+	}
 	p.Yield = r.Pick(0, 0, 0, 8)
 	p.Items = []core.Item{{K: "scenario", S: causeNames[cause], T: stateNames[state]}}
 	return []*core.Plan{p}
@@ -153,6 +156,17 @@ func runC12(t *testing.T, p *core.Plan) *core.Result {
 		// the subject
 		if cause == cSetupFails {
 			w.BkFail["Setup"] = w.bkN["Setup"] + 1
+		}
+		if p.Knob("pred", 0) == 1 && cause != cSetupFails && cause != cAuthRefused {
+			// a predecessor without a will holds the client id; the subject takes
+			// over from it and is then itself ended by the cause under test
+			pd := w.NewPeer("subj")
+			pc := packet.NewConnect()
+			pc.ClientID, pc.CleanSession = "subj", variant%2 == 0
+			pc.Username, pc.Password = "u1", "u1-pw"
+			pd.Send(pc)
+			w.Settle()
+			res.Count("subject_displaced_a_predecessor", 1)
 		}
 		s := w.NewPeer("subj")
 		s.AckMode = 2 // the scenario decides what the subject answers
@@ -323,6 +337,21 @@ func runC12(t *testing.T, p *core.Plan) *core.Result {
 			// the processor may not have read the cause yet: let the token timeout
 			// pass, then release late acknowledgements
 			w.Advance(3 * time.Second)
+		}
+		// causes by which the broker itself ends the connection: it must be over
+		// by now, and not only once the harness below gives up on it (the will
+		// would then be published - once - for the wrong reason)
+		// (malformed input may be an incomplete frame the broker still waits on,
+		// keep-alive expiry may be racing a late PINGREQ: not in this list)
+		brokerEnds := cause == cTakeover || cause == cBackendClose || cause == cSecondConnect || cause == cServerOnly || cause == cOversized
+		if brokerEnds && state != sPipelined && !s.EOF && s.Connack != nil && s.Connack.ReturnCode == 0 {
+			n := 0
+			for _, e := range w.Hist {
+				if e.K == EvBkEnter && e.Call == "Publish" && e.M != nil && TagOf(e.M.Payload) == willTag {
+					n++
+				}
+			}
+			res.Violate("C12", "C12.will-count", "connection-not-ended", fmt.Sprintf("cause %s in state %s: the broker has not ended the connection (its will was published %d times so far); it only ends when the peer gives up", causeNames[cause], stateNames[state], n))
 		}
 		// whatever happened, the connection must be over before the verdict
 		if !s.EOF {
